@@ -387,8 +387,13 @@ def main(ck):
         else:
             cause = 'interaction(%s)' % '+'.join(sp)
         exp, got = bysetting[sts[0]]
-        ek = exp[0] + ':' + (exp[1][0] if exp[0] == 'ok' and len(exp) > 1 else str(exp[1:2]))
-        gk = got[0] + ':' + (got[1][0] if got[0] == 'ok' and len(got) > 1 else str(got[1:2]))
+        def cls(o):
+            if o and o[0] == 'ok' and len(o) > 1:
+                return 'ok:' + str(o[1][0])
+            if o and o[0] in ('exc', 'crash') and len(o) > 1:
+                return '%s:%s' % (o[0], o[1])
+            return str(o[0]) if o else '?'
+        ek, gk = cls(exp), cls(got)
         key = '%s:%s:%s:%s:%s:%s->%s' % (mod.ext.lstrip('.'), f['form'], lit['kind'], cause, where, ek, gk)
         ck.discrepancy(key, '%s literal %s (form %s, file %s %s%s): CPython %s, compiled %s under settings %s' % (
             lit['kind'], lit['src'][:200], f['form'], mod.ext, mod.encoding, '+BOM' if mod.bom else '',
